@@ -150,3 +150,85 @@ theorem cstep_keeps (s : CSt) (e : CEv) (p : Tag) (hp : p ∈ s.checklist) (hr :
     simpa using hp
 
 end SFV.Loop
+
+namespace SFV.Loop
+open SFV
+
+/-- back-edge phase of the closed loop: the counter of `p` is `some k`, some token of the instance comes back -/
+theorem cycle_from {V} (cond : Tag → Bool) (body : Tag → V) (p : Tag) (n : Nat)
+    (htrue : ∀ k, k < n → cond (p ++ [k]) = true) (hfalse : cond (p ++ [n]) = false) :
+    ∀ (j k : Nat) (f : Nat) (m : Counters) (x : Nat), k + 1 + j = n → j < f → m p = some k →
+      cycle cond body f m (p ++ [x]) =
+        ((List.range j).map (fun i => Ev.data ⟨p ++ [k + 1 + i], body (p ++ [k + 1 + i])⟩)) ++ [Ev.iterTerm (p ++ [n])] := by
+  intro j
+  induction j with
+  | zero =>
+    intro k f m x hk hf hm
+    cases f with
+    | zero => omega
+    | succ f =>
+      have hnum : number m (p ++ [x]) = (setKey m p (some (k + 1)), p ++ [k + 1]) := by
+        simp [number, hm, Gen.loopIncr]
+      have hkn : k + 1 = n := by omega
+      simp [cycle, trip, hnum, hkn, hfalse]
+  | succ j ih =>
+    intro k f m x hk hf hm
+    cases f with
+    | zero => omega
+    | succ f =>
+      have hnum : number m (p ++ [x]) = (setKey m p (some (k + 1)), p ++ [k + 1]) := by
+        simp [number, hm, Gen.loopIncr]
+      have hc : cond (p ++ [k + 1]) = true := htrue (k + 1) (by omega)
+      have := ih (k + 1) f (setKey m p (some (k + 1))) (k + 1) (by omega) (by omega) (by simp [setKey])
+      simp only [cycle, trip, hnum, hc, if_true]
+      rw [this, range_succ_map']
+      simp only [List.cons_append, Nat.add_zero]
+      congr 2
+      apply List.map_congr_left
+      intro i _
+      have : k + 1 + 1 + i = k + 1 + (i + 1) := by omega
+      rw [this]
+where
+  range_succ_map' {α} (n : Nat) (g : Nat → α) :
+      (List.range (n + 1)).map g = g 0 :: (List.range n).map (fun j => g (j + 1)) := by
+    rw [List.range_succ_eq_map]; simp [List.map_map, Function.comp_def]
+
+end SFV.Loop
+
+namespace SFV.Loop
+open SFV
+
+theorem iterToks_range' {V} (p : Tag) (g : Nat → V) (n : Nat) : ∀ i,
+    iterToks p i ((List.range' i n).map g) = (List.range' i n).map (fun k => ⟨p ++ [k], g k⟩) := by
+  induction n with
+  | zero => intro i; rfl
+  | succ n ih => intro i; simp [List.range'_succ, iterToks, ih (i + 1)]
+
+/-- the tokens one loop instance sends to the loop output step: exactly `p.0 … p.(n-1)` and `iterTerm p.n`,
+    where `n` is the first iteration index at which the condition is false -/
+theorem cycle_eq {V} (cond : Tag → Bool) (body : Tag → V) (p : Tag) (n : Nat)
+    (htrue : ∀ k, k < n → cond (p ++ [k]) = true) (hfalse : cond (p ++ [n]) = false)
+    (m : Counters) (hm : m p.dropLast = none) (f : Nat) (hf : n < f) :
+    cycle cond body f m p =
+      (iterToks p 0 ((List.range n).map (fun k => body (p ++ [k])))).map Ev.data ++ [Ev.iterTerm (p ++ [n])] := by
+  cases f with
+  | zero => omega
+  | succ f =>
+    have hnum : number m p = (setKey m p (some 0), p ++ [0]) := by
+      simp [number, hm, Gen.loopInit, Gen.loopFirstSuffix]
+    rw [List.range_eq_range', iterToks_range' p (fun k => body (p ++ [k])) n 0, ← List.range_eq_range']
+    cases n with
+    | zero => simp [cycle, trip, hnum, hfalse]
+    | succ n =>
+      have hc : cond (p ++ [0]) = true := htrue 0 (by omega)
+      have := cycle_from cond body p (n + 1) htrue hfalse n 0 f (setKey m p (some 0)) 0 (by omega) (by omega) (by simp [setKey])
+      simp only [cycle, trip, hnum, hc, if_true]
+      rw [this, List.map_map, cycle_from.range_succ_map']
+      simp only [List.cons_append, Function.comp_def, Nat.zero_add]
+      congr 2
+      apply List.map_congr_left
+      intro i _
+      have : 1 + i = i + 1 := by omega
+      rw [this]
+
+end SFV.Loop
